@@ -31,12 +31,13 @@ RECURSIVE TextOf(_, _)
 TextOf(f, i) == IF i > Len(f) THEN <<>> ELSE JsonText(f[i]).s \o (IF i < Len(f) THEN Sep ELSE <<>>) \o TextOf(f, i + 1)
 
 RECURSIVE AllEventEnds(_, _, _)
-\* events of all documents with their completing byte; plus the clean cut positions
+\* events of all documents with their completing byte; the last byte of each document; the clean cut positions
 AllEventEnds(f, i, off) ==
-  IF i > Len(f) THEN [evs |-> <<>>, clean |-> {}]
+  IF i > Len(f) THEN [evs |-> <<>>, clean |-> {}, ends |-> <<>>]
   ELSE LET x == EventEnds(f[i], <<>>, off)
            r == AllEventEnds(f, i + 1, x.next + Len(Sep))
        IN [evs |-> x.evs \o r.evs,
+           ends |-> <<x.next - 1>> \o r.ends,                         \* the last byte of each document
            clean |-> {c \in (x.next - 1)..(x.next - 1 + Len(Sep)) : i < Len(f) \/ c = x.next - 1} \cup r.clean]
 
 AllStreams == UNION {Forests(n, MaxDocs) : n \in 1..MaxNodes}
